@@ -23,22 +23,21 @@ def bcast2 (a b : Shape) : Option Shape := (bcastRev a.reverse b.reverse).map Li
 
 namespace addsub
 
-/-- `aten_add(self, other, alpha)` / `aten_sub`: bool → `Or` (or `Identity` when `alpha == 0`); `alpha != 1` → `Mul(other,
-CastLike(alpha, other))` first.  `alpha2` is alpha in halves. -/
+/-- `aten_add(self, other, alpha)` / `aten_sub`: bool → `Or(self, other)`, with `other := And(other, False)` when `alpha == 0` (fix a26d309: the
+broadcast is kept); `alpha != 1` → `Mul(other, CastLike(alpha, other))` first.  `alpha2` is alpha in halves. -/
 def term (isAdd : Bool) (dc : DC) (other : String) (alpha2 : Int) : String :=
   if isAdd && dc == .bool then
-    (if alpha2 = 0 then tOp "Identity" ["x0"] else tOp "Or" ["x0", other])
+    tOp "Or" ["x0", if alpha2 = 0 then tOp "And" [other, "0:BOOL"] else other]
   else
     let o := if alpha2 = 2 then other else tOp "Mul" [other, tOp "CastLike" [halfStr dc alpha2, other]]
     tOp (if isAdd then "Add" else "Sub") ["x0", o]
 
-def model (isAdd : Bool) (dc : DC) (a b : Shape) (alpha2 : Int) : Option Shape :=
-  if isAdd && dc == .bool && alpha2 = 0 then some a else bcast2 a b
+def model (_isAdd : Bool) (_dc : DC) (a b : Shape) (_alpha2 : Int) : Option Shape := bcast2 a b
 
 def spec (a b : Shape) : Option Shape := bcast2 a b
 
 /-- boolean `add`: `self | (alpha & other)` -/
-def boolModel (x y alpha : Bool) : Bool := if alpha = false then x else x || y
+def boolModel (x y alpha : Bool) : Bool := if alpha = false then x || (y && false) else x || y
 def boolSpec (x y alpha : Bool) : Bool := x || (alpha && y)
 
 end addsub
